@@ -91,12 +91,16 @@ def run_save(case, plan=None, log=None, hooks=None, fs=None, only_warmup=False):
     dest_arg, dest_abs, part_abs = paths(case)
     if fs is None:
         fs = simfs.SimFS(cwd=DIR, umask=case.get('umask', 0o022))
-        di = case.get('dest_initial')
-        if di is not None:
-            fs.preload(dest_abs, bytes.fromhex(di['data']), di['mode'])
-        pi = case.get('part_initial')
-        if pi is not None:
-            fs.preload(part_abs, bytes.fromhex(pi['data']), pi['mode'])
+        for spec, path in ((case.get('dest_initial'), dest_abs), (case.get('part_initial'), part_abs)):
+            if spec is None:
+                continue
+            if spec.get('symlink'):
+                # the name is a symbolic link; its target exists iff 'data' is given
+                fs.preload_symlink(path, spec['symlink'])
+                if spec.get('data') is not None:
+                    fs.preload(DIR + '/' + spec['symlink'], bytes.fromhex(spec['data']), spec['mode'])
+            else:
+                fs.preload(path, bytes.fromhex(spec['data']), spec['mode'])
     sim = simfs.Sim(fs, plan, log, blksize=case.get('blksize', 8192))
     sim.watch = {dest_abs, part_abs}
     if hooks:
@@ -127,7 +131,7 @@ def run_save(case, plan=None, log=None, hooks=None, fs=None, only_warmup=False):
     sim.publish, sim.binding_changes, sim.writes_after_publish = [], {}, 0
     if case.get('reuse') and r.exc is None:
         fs.settle()                  # the earlier saves are long done and on disk
-    r.pre_inos = {p: fs.dir.get(p) for p in (dest_abs, part_abs)}
+    r.pre_inos = {p: fs.binding(p) for p in (dest_abs, part_abs)}
     r.pre_state = {'dest': fs.read_path(dest_abs), 'dest_mode': fs.mode_of(dest_abs),
                    'part': fs.read_path(part_abs), 'part_mode': fs.mode_of(part_abs)}
     if only_warmup or r.exc is not None:
@@ -162,8 +166,12 @@ def run_save(case, plan=None, log=None, hooks=None, fs=None, only_warmup=False):
     except BaseException as e:
         r.exc = e
         fn = getattr(e, 'filename', None)
+        tb, last = e.__traceback__, None
+        while tb is not None:
+            last, tb = tb, tb.tb_next
+        raised_by_simfs = last is not None and last.tb_frame.f_code.co_filename.endswith('simfs.py')
         if (isinstance(e, FileNotFoundError) and isinstance(fn, str) and fn.startswith(DIR)
-                and fs.lookup(fn) is not None):
+                and not raised_by_simfs and fs.lexists(fn)):
             # the path exists in the simulated file system but the REAL kernel was asked about it
             sim.dispose()
             raise core_Unsimulated('the code under test touched the real file system at simulated path %s' % fn)
@@ -267,12 +275,22 @@ def gen_workload(rng, faults=False):
     if rng.random() < 0.1:
         import errno as _e
         case['env'] = {'link': rng.choice([_e.EPERM, _e.EMLINK])}   # a file system without hard links
+    if rng.random() < 0.08:
+        # the destination is a symbolic link (live or dangling)
+        case['dest_initial'] = {'symlink': 'elsewhere.txt', 'mode': rng.choice([0o600, 0o644, 0o664]),
+                                'data': bytes(rng.randrange(256) for _ in range(rng.randint(0, 8))).hex()
+                                if rng.random() < 0.5 else None}
+        case.pop('reuse', None)
     if faults:
         case['file_perms'] = rng.choice([None, None, 0o600, 0o644, 0o666, 0o755])
         case['overwrite_part'] = rng.random() < 0.3
         case['rm_part_on_exc'] = rng.random() < 0.8
         if rng.random() < 0.25:
             case['part_initial'] = {'data': b'stale part'.hex(), 'mode': 0o600}
+            if rng.random() < 0.3:
+                # the stale part 'file' is a symbolic link to somebody's file
+                case['part_initial'] = {'symlink': 'victim.txt', 'data': b'VICTIM DATA'.hex(), 'mode': 0o640}
+                case.pop('reuse', None)
     return case
 
 
@@ -327,10 +345,16 @@ def run_real(case):
         dest_abs = os.path.join(d, dest_name)
         part_abs = os.path.join(d, case['part_file']) if case.get('part_file') else dest_abs + '.part'
         for spec, path in ((case.get('dest_initial'), dest_abs), (case.get('part_initial'), part_abs)):
-            if spec is not None:
-                with open(path, 'wb') as fh:
+            if spec is None:
+                continue
+            target = path
+            if spec.get('symlink'):
+                target = os.path.join(d, spec['symlink'])
+                os.symlink(spec['symlink'], path)
+            if spec.get('data') is not None:
+                with open(target, 'wb') as fh:
                     fh.write(bytes.fromhex(spec['data']))
-                os.chmod(path, spec['mode'])
+                os.chmod(target, spec['mode'])
         os.chdir(d)
         rec = _RecOS()
         fu.os = rec
@@ -346,10 +370,15 @@ def run_real(case):
                     elif step[0] == 'flush':
                         f.flush()
                     elif step[0] == 'raise':
+                        if len(step) > 1 and step[1] == 'base':
+                            raise BodyAbort('body interrupted')
+                        if len(step) > 1 and step[1] == 'falsy':
+                            raise FalsyError()
                         raise BodyError('body failed')
         except BaseException as e:
             exc = e
-        out = {'listing': sorted(os.listdir(d)), 'exc': type(exc).__name__ if exc else None, 'calls': rec.calls}
+        out = {'listing': sorted(os.listdir(d)), 'exc': type(exc).__name__ if exc else None, 'calls': rec.calls,
+               'dest_is_link': os.path.islink(dest_abs)}
         if os.path.exists(dest_abs):
             with open(dest_abs, 'rb') as fh:
                 out['dest'] = fh.read()
@@ -367,7 +396,8 @@ def run_sim_summary(case):
     r = run_save(case, simfs.Plan(), None)
     _a, dest_abs, _p = paths(case)
     names = ('stat', 'open', 'fdopen', 'chmod', 'fsync', 'rename', 'link', 'unlink', 'lexists')
-    return {'listing': sorted(p.rsplit('/', 1)[1] for p in r.fs.listing()),
+    return {'listing': sorted(p.rsplit('/', 1)[1] for p in list(r.fs.listing()) + list(r.fs.symlinks)),
+            'dest_is_link': r.fs.is_symlink(dest_abs),
             'exc': type(r.exc).__name__ if r.exc else None,
             'calls': [k for k, _d in r.sim.trace if k in names],
             'dest': r.fs.read_path(dest_abs), 'mode': r.fs.mode_of(dest_abs)}
@@ -377,7 +407,7 @@ def fidelity_diff(case):
     """None if the simulated and the real execution agree, else a description."""
     real = run_real(case)
     sim = run_sim_summary(case)
-    for k in ('listing', 'exc', 'dest', 'mode', 'calls'):
+    for k in ('listing', 'exc', 'dest', 'mode', 'calls', 'dest_is_link'):
         if real[k] != sim[k]:
             return '%s differs: real %r, simfs %r' % (k, real[k], sim[k])
     return None
